@@ -5,7 +5,9 @@ import (
 	"fmt"
 	"io"
 	"os"
+	"strings"
 	"testing"
+	"time"
 
 	"pgregory.net/rapid"
 
@@ -98,11 +100,38 @@ type Case struct {
 	Truncate int       `json:"truncate_at"` // -1 = complete; else the stream ends (EOF) after this many bytes of the message
 	Cuts     []int     `json:"cuts"`
 	ReadBuf  int       `json:"read_buf"`
+	// Transport "" = scripted connection; "netpoll" / "standard" = real transport behind a unix socket
+	Transport string `json:"transport,omitempty"`
 }
 
 func probeReq() *wire.Req {
 	return &wire.Req{Method: "GET", Target: "/probe-after-stream?x=1", Proto: "HTTP/1.1", Lines: []wire.KV{{K: "Host", V: "example.com"}, {K: "X-Probe", V: "yes"}}}
 }
+
+// the loopback probe ends the connection, so that the exchange finishes without any timeout
+func probeReqClose() *wire.Req {
+	p := probeReq()
+	p.Lines = append(p.Lines, wire.KV{K: "Connection", V: "close"})
+	p.Close = true
+	return p
+}
+
+var netServers = map[string]*srv.NetEcho{}
+
+func netServer(transport string) (*srv.NetEcho, error) {
+	if s, ok := netServers[transport]; ok {
+		return s, nil
+	}
+	s, err := srv.NewNetEcho(srv.Config{Stream: true, MaxBody: 8 << 20, ReadBody: consume}, transport)
+	if err != nil {
+		return nil, err
+	}
+	s.Timeout = 6 * time.Second
+	netServers[transport] = s
+	return s, nil
+}
+
+const inconclusive = "INCONCLUSIVE"
 
 // Check runs the case; returns "" or the violation.
 func Check(c *Case) string {
@@ -111,13 +140,33 @@ func Check(c *Case) string {
 	msgEnd := m0.End
 	if c.Truncate >= 0 {
 		stream = stream[:c.Truncate]
-	} else if c.Probe {
+	} else if c.Probe && c.Transport == "" {
 		stream, _ = probeReq().Encode(stream)
+	} else if c.Probe {
+		stream, _ = probeReqClose().Encode(stream)
 	}
 	lg := &readLog{}
 	curLog, curProg = lg, c.Prog
-	e := server(c.ReadBuf)
-	obs, res, conn := e.Run(sconn.Split(stream, c.Cuts), sconn.EOF)
+	var obs []srv.Obs
+	var res sconn.Result
+	var conn *sconn.Conn
+	probe := probeReq()
+	if c.Transport == "" {
+		obs, res, conn = server(c.ReadBuf).Run(sconn.Split(stream, c.Cuts), sconn.EOF)
+	} else {
+		probe = probeReqClose()
+		ne, err := netServer(c.Transport)
+		if err != nil {
+			return inconclusive + ": " + err.Error()
+		}
+		obs, res, _ = ne.Run(sconn.Split(stream, c.Cuts), sconn.EOF)
+		if res.Err == srv.ErrNetTimeout {
+			if ne.MaxLate > 100*time.Millisecond {
+				return fmt.Sprintf("%s: exchange not finished after %v, but the machine was %v late", inconclusive, ne.Timeout, ne.MaxLate)
+			}
+			return fmt.Sprintf("the exchange over the %s transport did not finish within %v (scheduler at most %v late) although the whole request and a probe asking for close were sent: the server waits for bytes beyond the message or lost the message boundary; %d handler invocations, read log %d bytes err=%v, output %s", c.Transport, ne.Timeout, ne.MaxLate, len(obs), len(lg.data), lg.err, srv.Short(res.Output))
+		}
+	}
 	if res.Panic != nil {
 		return fmt.Sprintf("panic: %v\n%s", res.Panic, res.Stack)
 	}
@@ -170,7 +219,7 @@ func Check(c *Case) string {
 			}
 		}
 		// 2. never wait for bytes beyond the message while the handler runs
-		for _, r := range conn.HandlerReads {
+		for _, r := range handlerReads(conn) {
 			if r.Delivered >= msgEnd && len(obs) >= 1 {
 				// reads by the probe's handler do not exist (no body), so any such read belongs to request 0
 				return fmt.Sprintf("a wire read was issued while the handler was running although all %d bytes of the request had already been delivered (delivered=%d): the stream waits for bytes beyond the body", msgEnd, r.Delivered)
@@ -206,7 +255,7 @@ func Check(c *Case) string {
 		if !c.Probe || c.Truncate >= 0 {
 			return fmt.Sprintf("a second handler invocation (%s %s) although no second request was sent: body bytes were interpreted as a request", obs[1].Method, obs[1].URI)
 		}
-		if msg := srv.Match(probeReq(), nil, &obs[1]); msg != "" {
+		if msg := srv.Match(probe, nil, &obs[1]); msg != "" {
 			return "probe request was not parsed from the first byte after the body: " + msg
 		}
 		if finals[1].Status != 200 || srv.EchoIndex(finals[1]) != 1 {
@@ -216,6 +265,13 @@ func Check(c *Case) string {
 		return fmt.Sprintf("%d handler invocations and %d final responses (statuses %v): after the streamed request the connection must continue with the probe or be closed silently; observed:\n%s\noutput: %q\nread log: %d bytes err=%v", len(obs), len(finals), statuses(finals), srv.Describe(obs), res.Output, len(lg.data), lg.err)
 	}
 	return ""
+}
+
+func handlerReads(c *sconn.Conn) []sconn.ReadEvent {
+	if c == nil {
+		return nil // real socket: wire reads are not observable
+	}
+	return c.HandlerReads
 }
 
 func statuses(rs []*wire.ParsedResp) []int {
@@ -361,6 +417,58 @@ func TestC14Stream(t *testing.T) {
 		if msg := Check(c); msg != "" {
 			t.Fatalf("%s\nrequest: %s %s framing=%s body=%d chunks=%v trailers=%v expect=%v\nprogram=%+v probe=%v truncate=%d readBuf=%d cuts=%v", msg,
 				r.Method, r.Target, r.Framing, r.BodyLen, r.ChunkSizes, r.Trailers, r.Expect100, c.Prog, c.Probe, c.Truncate, c.ReadBuf, trim(c.Cuts))
+		}
+		if nt && rec.WantSample() {
+			cc := *c
+			cc.Cuts = trim(cc.Cuts)
+			rec.Sample(cc)
+		}
+	})
+}
+
+// TestC14Loopback runs the same consumption programs over the real transports (netpoll and
+// standard behind a unix socket). The request is always complete and followed by a probe that asks
+// for close, so every exchange ends by the server closing the connection.
+func TestC14Loopback(t *testing.T) {
+	rec := ev.New("loopback")
+	defer func() {
+		for k, s := range netServers {
+			s.Close()
+			delete(netServers, k)
+		}
+	}()
+	inconcl := 0
+	rapid.Check(t, func(t *rapid.T) {
+		r, _ := gen.GenReq(t, 0, gen.ReqOpts{Expect: true, ForceBody: rapid.IntRange(0, 9).Draw(t, "forceBody") > 0})
+		if r.Method == "GET" || r.Method == "HEAD" {
+			r.Method = "POST"
+		}
+		if r.Framing == wire.FrNone {
+			r.Body, r.BodyLen = nil, 0
+		}
+		c := &Case{Req: r, Truncate: -1, Probe: true, Transport: rapid.SampledFrom([]string{"netpoll", "netpoll", "standard"}).Draw(t, "transport")}
+		c.Prog = genProgram(t, r.BodyLen, chunkEnds(r))
+		var enc []byte
+		enc, m := r.Encode(enc)
+		total := m.End + len(mustEncode(probeReqClose()))
+		marks := []int{m.HeaderEnd, m.End, m.HeaderEnd + 8192, m.HeaderEnd + 8193}
+		marks = append(marks, m.ChunkStarts...)
+		c.Cuts = gen.Cuts(t, total, marks)
+		nt, cls := classify(c)
+		cls = append(cls, "transport-"+c.Transport)
+		rec.Case(nt, ev.Hash(enc, []byte(fmt.Sprint(c.Prog, c.Transport, c.Cuts))), cls...)
+		msg := Check(c)
+		if strings.HasPrefix(msg, inconclusive) {
+			inconcl++
+			rec.Class("loopback-inconclusive", 1)
+			if inconcl > 3 {
+				fmt.Println("VERIF-INCONCLUSIVE: " + msg)
+			}
+			return
+		}
+		if msg != "" {
+			t.Fatalf("%s\nrequest: %s %s framing=%s body=%d chunks=%v trailers=%v expect=%v\nprogram=%+v transport=%s cuts=%v", msg,
+				r.Method, r.Target, r.Framing, r.BodyLen, r.ChunkSizes, r.Trailers, r.Expect100, c.Prog, c.Transport, trim(c.Cuts))
 		}
 		if nt && rec.WantSample() {
 			cc := *c
